@@ -197,6 +197,11 @@ CHECKS = {
         text="Every instruction of every generated program must neither trip a SYMENGINE_ASSERT (is_canonical and friends, turned into catchable VerifAssertFailure exceptions by the verification hook) nor return a tree violating the transcribed canonical-form rules for Rational, Complex, Add, Mul, Pow and the container classes. Exploration.",
         note="Assertion sites already recorded (4, one known finding each, matched by file:line) are excluded; any other site or structural violation is reported. The generator covers the core expression API; matrices, polynomials and solvers are exercised by their own checks, which count assertion failures as assert_seen.",
         variants=["main"]),
+    "C40": dict(
+        engine="hy", technique="property-based testing / sanitizer-backed: generated API programs (1-3 expressions of the broad grammar, 31 operations each, pairwise combinations), each executed in its own AddressSanitizer + UndefinedBehaviorSanitizer + LeakSanitizer process; oracle = normal exit, no sanitizer report, no leak after all registers are dropped",
+        text="Every generated program must run to completion without an out-of-bounds access, use-after-free, undefined behaviour or a LeakSanitizer report at exit (every expression freed once its last reference is dropped); library exceptions are normal outcomes. Exploration.",
+        note="Process-per-program keeps failures attributable (the replay is the program). Uninitialised reads are not observable (no MSan-instrumented libstdc++). The per-area checks (polynomials, matrices, sets, C API, ...) run under the same sanitizers and report memory errors in their own areas.",
+        variants=["main"]),
 }
 
 NOT_APPLICABLE = {}
